@@ -3,6 +3,7 @@ import collections
 import random
 
 from vmon import gens as G
+from vmon.gens import THOROUGH_SCALE as TS
 from vmon import oracles as O
 
 PID = "C15"
@@ -251,7 +252,7 @@ def generate(tier, seed):
         yield "graph", {"seqs": ["CAAAA", "CDDDDDDD", "CWWW"], "k": 1, "engine": "nearest_neighbor", "mode": "lev", "method": m}, True
     yield "graph", {"seqs": ["CAAAA"], "k": 1, "engine": "kdtree", "mode": "lev", "method": "cc"}, True
     yield "graph", {"seqs": ["CAAA", "CAAA", "CDDD", "CAAD", "CWWWW", "CAAA"], "k": 1, "engine": "hash_based", "mode": "hamming", "method": "cc", "labels": "series"}, True
-    n_g = 2500 if thorough else 150
+    n_g = 2500 * TS if thorough else 150
     pools = [G.universe("AC", 5), G.universe("ACD", 4), G.universe("AWY", 3)]
     for i in range(n_g):
         if i % 4 == 0:
@@ -271,7 +272,7 @@ def generate(tier, seed):
                 yield "hier", {"seqs": wit, "method": method, "criterion": crit, "t": t}, True
     for c in ("tuple", "ndarray_U", "series_shifted", "series_string", "series_permuted"):
         yield "hier", {"seqs": wit, "method": "average", "criterion": "distance", "t": 2, "container": c}, True
-    n_h = 1500 if thorough else 80
+    n_h = 1500 * TS if thorough else 80
     for i in range(n_h):
         seqs = G.small_multiset(rng, pools[i % 3], 2, 25) if i % 3 else G.repertoire(rng, rng.randint(3, 40), lo=3, hi=8)
         if len(seqs) == 2 and i % 5 == 1:
@@ -282,11 +283,11 @@ def generate(tier, seed):
         yield "hier", {"seqs": seqs, "method": ["single", "complete", "average", "weighted"][i % 4], "criterion": ["distance", "maxclust"][i % 2],
                        "t": rng.choice([0, 1, 2, 3, 5, 1.5]) if i % 2 == 0 else rng.choice([1, 2, 3, 5]), "container": cont, "optimal": i % 3 != 0}, i < 30
     cells = ["CAF", "CAAF", "CAW", "CF", "CASF", "CAAAF"]
-    for i in range(300 if thorough else 24):
+    for i in range(300 * TS if thorough else 24):
         rows = [[rng.choice(cells), rng.choice(cells)] for _ in range(rng.randint(3, 14))]
         cols = ["AB", "A", "B"][i % 3]
         yield "hier_table", {"rows": rows, "cols": cols, "method": ["average", "single", "complete"][i % 3], "t": rng.choice([1, 2, 4]),
                              "index": [None, "string", "shifted"][i % 3], "legacy": cols == "AB" and i % 6 == 0}, i < 12
-    for i in range(800 if thorough else 50):
+    for i in range(800 * TS if thorough else 50):
         seqs = G.small_multiset(rng, pools[i % 3], 2, 30) if i % 3 else G.repertoire(rng, rng.randint(4, 50), lo=3, hi=8)
         yield "identity", {"seqs": seqs, "t": rng.choice([1, 1, 2, 3])}, i < 20
